@@ -77,6 +77,14 @@ theorem Fr.inv_def (x : Fr) : x⁻¹ = finInv x := rfl
 theorem instFieldFq_toInv : (instFieldFq.toInv : Inv Fq) = Jedi.instInvFq := rfl
 theorem instFieldFr_toInv : (instFieldFr.toInv : Inv Fr) = Jedi.instInvFr := rfl
 
+/-- the operations core Lean provides on `Fin q` (what the Spec and the judge use without Mathlib) are the field's -/
+theorem Fq.zero_inst : (MulZeroClass.toZero : Zero Fq) = @Zero.ofOfNat0 Fq _ := rfl
+theorem Fq.one_inst : (AddMonoidWithOne.toOne : One Fq) = @One.ofOfNat1 Fq _ := rfl
+theorem Fq.add_inst : (Distrib.toAdd : Add Fq) = Fin.instAdd := rfl
+theorem Fq.mul_inst : (Distrib.toMul : Mul Fq) = Fin.instMul := rfl
+theorem Fq.sub_inst : (Ring.toSub : Sub Fq) = Fin.instSub := rfl
+theorem Fq.neg_inst : (Ring.toNeg : Neg Fq) = Fin.neg q := rfl
+
 theorem Fq.card : Fintype.card Fq = q := Fintype.card_fin q
 theorem Fr.card : Fintype.card Fr = r := Fintype.card_fin r
 
